@@ -64,6 +64,10 @@ type Run struct {
 	// EvidenceTargets, when set, chooses the validators to forge evidence against before block n.
 	EvidenceTargets func(r *Run, st *state.StateDB, n uint64) []common.Address
 
+	// SideImportAt: after these blocks a fresh node on its own branch is offered the whole chain in
+	// one call (side-chain import path).
+	SideImportAt map[uint64]bool
+
 	// Scope, when set, restricts what this run reports: a failure whose class is out of scope
 	// (the subject of another property's check, which runs the same chains) ends the case and is
 	// counted, not reported.
@@ -106,6 +110,11 @@ func NewRun(c *kit.Ctx, id string, r *rand.Rand, sc *Scenario) (*Run, error) {
 	run.Builder = build.New(run.A.Chain, run.EngA)
 	run.Freq = w.YP.StakingTrieFrequency
 	run.Blocks = []*types.Block{run.A.Chain.CurrentBlock()}
+	// side-chain imports: one across at least two period ends (a record of one period, a transaction for the same pair in the next, its take-effect at the following end), one later (longer chains only)
+	run.SideImportAt = map[uint64]bool{uint64(34 + r.Intn(40)): true} // at least two period ends (16 blocks each) inside
+	if sc.Blocks > 120 && r.Intn(2) == 0 {
+		run.SideImportAt[uint64(60+r.Intn(sc.Blocks-100))] = true
+	}
 	return run, nil
 }
 
@@ -352,6 +361,57 @@ func (r *Run) step(n uint64, mons []Monitor) bool {
 	}
 	for _, m := range mons {
 		if !m.Imported(r, b) || r.stopped {
+			return false
+		}
+	}
+	if b.ImportErr == nil && r.SideImportAt[n] && !r.sideImport(b) {
+		return false
+	}
+	return true
+}
+
+// sideImport: a third node that sits on a branch of its own (n-1 blocks without transactions, built
+// by its own honest builder) is offered the whole chain built so far in ONE InsertChain call. The
+// chain is longer, so the blocks go through the side-chain path: verifyAllSideChainBlocks executes
+// all of them on ONE StateDB carried from block to block (across staking-period ends), then reorg.
+// Every block was accepted by the block-by-block importer; this path must accept them unchanged too.
+func (r *Run) sideImport(b *BlockCtx) bool {
+	n := b.N
+	eng := env.NewNeutralEngine(r.W.VA(r.Sc.Proposers[0]))
+	nd, err := env.NewNode(r.Genesis, eng)
+	if err != nil {
+		return true
+	}
+	defer nd.Stop()
+	own := build.New(nd.Chain, eng)
+	own.Extra = []byte("own branch")
+	for k := uint64(1); k < n; k++ {
+		p := nd.Chain.CurrentBlock()
+		res, err := own.Build(p.Time()+1, build.NewOrderedTxs(r.W.Signer, nil))
+		if err == nil {
+			err = own.Commit(res)
+		}
+		if err != nil {
+			r.C.Count("side_import_own_branch_failed", 1)
+			return true // (its own branch: builder failures are judged on the main run)
+		}
+	}
+	var ierr error
+	if p := kit.Guard(func() { ierr = nd.Chain.InsertChain(types.Blocks(r.Blocks[1:])) }); p != nil {
+		r.Violation("side-chain-import-panic", fmt.Sprintf("a node on its own branch of %d blocks panics when it is offered the %d blocks of the chain in one call: %v", n-1, n, p), r.Witness(b, nil))
+		return false
+	}
+	r.C.Count("side_chain_imports", 1)
+	r.C.Count("side_chain_import_blocks", int(n))
+	r.SigPart("side-import")
+	if ierr != nil || nd.Chain.CurrentBlock().Hash() != b.Block.Hash() {
+		r.Violation("side-chain-import-rejected:"+Normalise(fmt.Sprint(ierr)), fmt.Sprintf("blocks 1..%d, each accepted by the block-by-block importer, are offered in one call to a node sitting on its own branch of %d blocks (side-chain path: all blocks executed on one StateDB, then reorg): InsertChain -> %v, head #%d", n, n-1, ierr, nd.Chain.CurrentBlock().NumberU64()), r.Witness(b, nil))
+		return false
+	}
+	st, err := nd.Chain.State()
+	if err == nil {
+		for _, v := range mon.CheckLive(st, r.W.U) {
+			r.Violation("c08:side-import:"+v.Class, fmt.Sprintf("block %d, head state after the side-chain import: %s", n, v.Msg), r.Witness(b, nil))
 			return false
 		}
 	}
